@@ -268,6 +268,7 @@ func TestGuaranteedInvalidEdits(t *testing.T) {
 		v := rapid.SampledFrom(px.KeyVersions).Draw(rt, "version")
 		o := progs.Options(v)
 		o.NoHalt = true // after __halt_compiler(); everything is data
+		o.LeadHTML = progs.Padding(rt)
 		c := progs.Draw(rt, v, o, 1, 4)
 		lay := c.G.Render(c.Root, progs.Policy(rt, phpgen.PolicySpace, nil))
 		src := lay.Src
